@@ -124,7 +124,7 @@ def judge_swarm(ctx, case, o):
         got = []
         errs = []
         last = {}
-        for e in log:
+        for e in (log or []):
             if e["type"] == "error":
                 msg = e.get("msg") or ""
                 tgt = msg.split("peer-")[-1] if "peer-" in msg else msg
@@ -188,10 +188,19 @@ def run(ctx):
         return ctx.finish(LEVEL)
     thorough = ctx.tier == "thorough"
     # ---- 1. sequential histories: the model's transcript vs the real binary's
-    rcases = gen_route(ctx, 240 if thorough else 60)
+    rcases = gen_route(ctx, 1500 if thorough else 60)
     lines = ["route " + json.dumps(c).encode().hex() for c in rcases]
     res, errs = run_parallel(ctx, exe, "route", lines, {"THRUSERV_BIN": srv}, workers=12)
     ctx.oblige("harness:route", not errs and all(r is not None for r in res), "; ".join(errs)[:300])
+    # a history that did not settle (a fence not back within 3 s) is run once more on its own: a lost envelope reproduces, a stall of the
+    # loaded machine does not
+    retried = 0
+    for i, r in enumerate(res):
+        if r is not None and r.startswith(("harness-err", "server-err", "setup-err")):
+            r2, _ = run_parallel(ctx, exe, "route-retry", [lines[i]], {"THRUSERV_BIN": srv}, workers=1)
+            retried += 1
+            if r2 and r2[0] is not None:
+                res[i] = r2[0]
     mcases = ["route 256 " + " ".join(c["acts"]) for c in rcases]
     mp = os.path.join(ctx.workdir, "route.model.cases")
     open(mp, "w").write("\n".join(mcases) + "\n")
@@ -229,7 +238,7 @@ def run(ctx):
     ctx.oblige("correspondence:thruserv-routing", not diffs,
                "; ".join(f"acts {' '.join(d[0]['acts'])}: impl `{d[1]}` model `{d[2]}`" for d in diffs[:2])[:900])
     # ---- 2. concurrent swarms judged against the property itself
-    scases = gen_swarm(ctx, 36 if thorough else 10, thorough)
+    scases = gen_swarm(ctx, 150 if thorough else 10, thorough)
     lines = ["swarm " + json.dumps(c).encode().hex() for c in scases]
     res, errs = run_parallel(ctx, exe, "swarm", lines, {"THRUSERV_BIN": srv}, workers=5)
     ctx.oblige("harness:swarm", not errs and all(r is not None for r in res), "; ".join(errs)[:300])
@@ -248,7 +257,7 @@ def run(ctx):
         delivered += judge_swarm(ctx, c, o)
     ctx.coverage.update({
         "evaluations": len(rcases) + len(scases), "distinct_nontrivial": nontrivial + len(scases),
-        "route_histories": len(rcases), "swarms": len(scases), "envelopes_judged_in_swarms": delivered,
+        "route_histories": len(rcases), "route_histories_rerun_after_stall": retried, "swarms": len(scases), "envelopes_judged_in_swarms": delivered,
         "disagreements_model_vs_impl": len(diffs),
         "rule": "histories: 2-3 sessions, peer ids from a pool of 4 shared across sessions (duplicates within a session = reconnects), joins, leaves, messages addressed to peers of the own session / of another session only / unknown, "
                 "unaddressed, with spoofed from (other peer, own, unknown), foreign or bogus session_id, wrong version / missing type / missing id / truncated JSON; every act fenced, transcript per connection compared with the model. "
